@@ -102,6 +102,7 @@ class VC(object):
         cls = self.interp.get(dotted_cls)
         o = Obj(cls)
         o._f.update(fields)
+        object.__setattr__(o, "_partial", True)     # fields not given are "not modelled", not "absent"
         self.st.notes.append(o)
         return o
 
@@ -120,6 +121,9 @@ class VC(object):
             return Outcome("ret", value=v)
         except ProgExc as e:
             return Outcome("exc", exc=e.cls)
+
+    def cover(self, name, cond=True):
+        self.st.cover("%s/cover/%s" % (self.hname, name), cond)
 
     def drain(self, gen):
         """run a generator to exhaustion; returns Outcome with list of yielded values"""
@@ -164,6 +168,13 @@ def _discharge_one(i):
     status, backend, secs, model = VCM.solve(ob.pc, ob.goal, timeout_ms, hints=st.hints)
     orec = {"name": ob.name, "kind": ob.kind, "status": status, "backend": backend,
             "time": round(secs, 4), "variant": vname}
+    if ob.kind == "cover":
+        # vacuity guard: the goal Not(cond) must be refuted (a model of pc and cond exists); 'proved' means the
+        # preconditions are contradictory, which leaves the harness undecided, never a verdict on the code
+        orec["status"] = {"refuted": "proved", "proved": "unknown"}.get(status, "unknown")
+        orec["backend"] = "%s (cover: %s)" % (backend, "witness found" if status == "refuted" else
+                                              "NO witness: preconditions unsatisfiable or solver gave up")
+        return orec
     if status == "refuted" and ob.known:
         active = [(kid, c) for (kid, c) in ob.known if kid in KNOWN_IDS]
         if active:
